@@ -276,3 +276,5 @@ def run(ctx):
     check_one(ctx, "tmpl", "template", always_single=True)
     sched.ob_never_suspends(ctx, 6, "tmpl", "template")
     sched.fixture_suspend_present(ctx, 6)
+    # arrival order reaches the policy through the wrapper that every simulation calls: it must not hold back or reorder what arrives (#3)
+    sched.ob_wrapper_passes_through(ctx, 3)
